@@ -30,6 +30,8 @@ use std::time::Duration;
 
 const IDLE: Duration = Duration::from_secs(10);
 const LIMITS: [u32; 10] = [1, 10, 50, 63, 64, 100, 127, 128, 1000, 65536];
+/// request limit of every other server: below the largest response limit, above the others
+const SMALL_REQUEST_LIMIT: u32 = 8192;
 const TOO_BIG: i64 = -32008;
 const BATCH_TOO_BIG: i64 = -32011;
 /// marks sentinel ids; never part of a generated id
@@ -772,6 +774,8 @@ struct Env {
 	base_log: HLog,
 	ws: RawWs,
 	sub_len: Arc<AtomicUsize>,
+	/// requests longer than this are not sent (they would be refused for their own size: C07's subject)
+	max_request: usize,
 	probe_no: u64,
 	chunk: u64,
 }
@@ -782,7 +786,7 @@ impl Env {
 		let mut b = ServerConfig::builder().max_connections(1000).max_response_body_size(limit).set_id_provider(SizedIds(sub_len.clone()));
 		if small_req_limit {
 			// request limit below some response limits and above others: acceptance must follow this one only
-			b = b.max_request_body_size(4096);
+			b = b.max_request_body_size(SMALL_REQUEST_LIMIT);
 		}
 		let log = HLog::default();
 		let srv = MemServer::new(b.build(), module(log.clone()));
@@ -790,7 +794,7 @@ impl Env {
 		let base =
 			MemServer::new(ServerConfig::builder().max_connections(1000).max_response_body_size(u32::MAX).build(), module(base_log.clone()));
 		let ws = srv.ws().await.expect("ws connect");
-		Env { srv, log, base, base_log, ws, sub_len, probe_no: 0, chunk }
+		Env { srv, log, base, base_log, ws, sub_len, max_request: if small_req_limit { SMALL_REQUEST_LIMIT as usize - 64 } else { 1 << 20 }, probe_no: 0, chunk }
 	}
 
 	async fn http(&self, body: &str) -> (Vec<Vec<u8>>, usize, u16) {
@@ -848,6 +852,15 @@ fn record_len_stats(ev: &mut Evidence, prefix: &str, len: usize, limit: u32) {
 /// Run one case against the real server (HTTP + WS + unlimited baseline).
 async fn run_case(env: &mut Env, case: &Case, ev: &mut Evidence, violations: &mut Vec<Violation>) {
 	let limit = case.limit();
+	let request_len = match case {
+		Case::Single { call, .. } => request_text(call).len(),
+		Case::Batch { entries, .. } => entries.iter().map(|c| request_text(c).len() + 1).sum::<usize>() + 1,
+		Case::Subscribe { .. } => 0,
+	};
+	if request_len > env.max_request {
+		ev.count("skipped_request_near_request_limit", 1);
+		return;
+	}
 	ev.count(&format!("limit_{limit}_cases"), 1);
 	match case {
 		Case::Single { call, .. } => {
